@@ -6,7 +6,7 @@
 set -u
 WT=$1; P=$2; NAME=$3; FEAT=${4:-}
 VERIF=$(cd "$(dirname "$0")/.." && pwd)
-export CARGO_BUILD_JOBS=${CARGO_BUILD_JOBS:-6} CARGO_NET_OFFLINE=true CARGO_TARGET_DIR=$WT/target
+export CARGO_BUILD_JOBS=${CARGO_BUILD_JOBS:-6} CARGO_NET_OFFLINE=true CARGO_TARGET_DIR=${CTL_TARGET:-$WT/target}
 if [ ! -f "$WT/CONTROL/patch.diff" ] || [ ! -f "$WT/CONTROL/demo.rs" ]; then echo "NO DELIVERABLE in $WT"; exit 2; fi
 cd "$WT" || exit 2
 git checkout -q -- src 2>/dev/null
@@ -27,5 +27,6 @@ D="$VERIF/controls/$P-$NAME"; mkdir -p "$D"
 cp CONTROL/patch.diff CONTROL/demo.rs "$D/"; cp CONTROL/README.md "$D/agent_README.md" 2>/dev/null
 cd /; git -C /repo worktree remove --force "$WT"
 if ! git -C /repo apply --check "$D/patch.diff" 2>/dev/null; then echo "NOTE: patch does not apply to current /repo HEAD"; exit 0; fi
+[ -n "${NO_EVAL:-}" ] && exit 0
 echo "#### evaluate (every quick check must stay silent)"
 python3 "$VERIF/tools/eval_seeded.py" "$D" 2>&1 | tail -30
